@@ -332,20 +332,44 @@ func (n *normCtx) literalOfVar(id *ast.Ident) (*ast.CompositeLit, func()) {
 			if !ok || at.Len != nil {
 				return nil, nil
 			}
+			needAdjacent := false
 			for _, el := range e.Elts {
 				switch z := el.(type) {
 				case *ast.FuncLit, *ast.BasicLit, *ast.Ident:
 				case *ast.SelectorExpr:
 					q, isId := z.X.(*ast.Ident)
-					if !isId {
-						return nil, nil
-					}
-					if _, isPkg := resolve(q).(*types.PkgName); !isPkg {
-						return nil, nil
+					if _, isPkg := resolve(q).(*types.PkgName); !isId || !isPkg {
+						needAdjacent = true
 					}
 				default:
-					return nil, nil
+					needAdjacent = true
 				}
+				// anything with a call, a receive or a function literal
+				// inside is evaluated where it stands
+				if _, isFn := el.(*ast.FuncLit); !isFn {
+					bad := false
+					ast.Inspect(el, func(m ast.Node) bool {
+						switch y := m.(type) {
+						case *ast.CallExpr:
+							if tv, ok := info.Types[y.Fun]; !ok || !tv.IsType() {
+								bad = true
+							}
+						case *ast.FuncLit:
+							bad = true
+						case *ast.UnaryExpr:
+							if y.Op == token.ARROW {
+								bad = true
+							}
+						}
+						return !bad
+					})
+					if bad {
+						return nil, nil
+					}
+				}
+			}
+			if needAdjacent && !n.nothingBetween(body, vi.init, id) {
+				return nil, nil
 			}
 			slot := vi.init
 			record := func(orig, cp *ast.Ident) { n.in.origOf[cp] = orig }
@@ -357,4 +381,122 @@ func (n *normCtx) literalOfVar(id *ast.Ident) (*ast.CompositeLit, func()) {
 		}
 	}
 	return nil, nil
+}
+
+// nothingBetween: between the statement that holds the expression slot `from`
+// and the range statement over `to` nothing is executed but declarations and
+// copies of names (what the inliner writes in front of an inlined body), so
+// that reading variables and fields at the loop instead of at the declaration
+// reads the same values.
+func (n *normCtx) nothingBetween(body ast.Node, from *ast.Expr, to *ast.Ident) bool {
+	trivial := func(s ast.Stmt) bool {
+		switch x := s.(type) {
+		case *ast.DeclStmt:
+			gd, ok := x.Decl.(*ast.GenDecl)
+			if !ok {
+				return false
+			}
+			for _, sp := range gd.Specs {
+				if vs, isV := sp.(*ast.ValueSpec); isV {
+					for _, v := range vs.Values {
+						if _, isId := v.(*ast.Ident); !isId && &vs.Values[0] != from {
+							if _, isLit := v.(*ast.CompositeLit); !isLit {
+								return false
+							}
+						}
+					}
+				}
+			}
+			return true
+		case *ast.AssignStmt:
+			for _, r := range x.Rhs {
+				if _, isId := r.(*ast.Ident); !isId {
+					return false
+				}
+			}
+			return true
+		case *ast.EmptyStmt:
+			return true
+		}
+		return false
+	}
+	// the chain of statement lists from the body down to the range statement
+	var path []ast.Node
+	var stack []ast.Node
+	var rangeStmt *ast.RangeStmt
+	ast.Inspect(body, func(x ast.Node) bool {
+		if x == nil {
+			stack = stack[:len(stack)-1]
+			return true
+		}
+		stack = append(stack, x)
+		if rs, ok := x.(*ast.RangeStmt); ok && rs.X == ast.Expr(to) {
+			rangeStmt = rs
+			path = append([]ast.Node{}, stack...)
+		}
+		return rangeStmt == nil
+	})
+	if rangeStmt == nil {
+		return false
+	}
+	holds := func(s ast.Stmt) bool {
+		found := false
+		ast.Inspect(s, func(x ast.Node) bool {
+			switch y := x.(type) {
+			case *ast.ValueSpec:
+				for i := range y.Values {
+					if &y.Values[i] == from {
+						found = true
+					}
+				}
+			case *ast.AssignStmt:
+				for i := range y.Rhs {
+					if &y.Rhs[i] == from {
+						found = true
+					}
+				}
+			}
+			return !found
+		})
+		return found
+	}
+	started := false
+	for i, nd := range path {
+		var list []ast.Stmt
+		switch b := nd.(type) {
+		case *ast.BlockStmt:
+			list = b.List
+		case *ast.CaseClause:
+			list = b.Body
+		default:
+			if started {
+				switch nd.(type) {
+				case *ast.SwitchStmt, *ast.LabeledStmt, *ast.RangeStmt:
+					// (the single-case switch the inliner wraps a body in)
+				default:
+					return false
+				}
+			}
+			continue
+		}
+		var next ast.Node
+		if i+1 < len(path) {
+			next = path[i+1]
+		}
+		for _, st := range list {
+			if ast.Node(st) == next {
+				break
+			}
+			if !started {
+				if holds(st) {
+					started = true
+				}
+				continue
+			}
+			if !trivial(st) {
+				return false
+			}
+		}
+	}
+	return started
 }
